@@ -768,3 +768,35 @@ func genC10File(t *rapid.T) C10FileCase {
 }
 
 func TestC10Files(t *testing.T) { ReplayOrRapid(t, NewRun(t, "C10"), checkC10File, genC10File) }
+
+// ---- C10 on hostile texts: whatever is accepted holds only values a MIDI message can carry ----
+//
+// The generator of C09 (schema-vocabulary documents with hostile values, mutated factory files, mutated valid
+// configurations) is reused; the oracle is the reject side of C10 in its weakest, input-independent form: if ParseData
+// accepts the text, every stored note / controller / offset / velocity / default channel is inside its MIDI range and
+// the default mapping exists. (What the text *means* is decided by the structured part; this part reaches value
+// combinations that no single-field invalidation produces.) TestC10Hostile (rapid) and FuzzC10 (coverage-guided, thorough).
+func checkC10Hostile(c C09Case) (bool, *Violation) {
+	data := c.Data
+	if data == nil {
+		data = []byte(c.Text)
+	}
+	var cfg config.Config
+	var perr error
+	if v := guard("C10", "parser-panic", func() *Violation {
+		cfg, perr = config.ParseData(data)
+		return nil
+	}); v != nil {
+		return false, nil // a crash is C09's finding, not this part's
+	}
+	if perr != nil {
+		return false, nil
+	}
+	classify("hostile text accepted")
+	if p := midiRangeProblem(&cfg); p != "" {
+		return true, violation("C10", "value-out-of-midi-range", "hostile", "an accepted configuration holds %s\n%s", p, clip(string(data), 3000))
+	}
+	return true, nil
+}
+
+func TestC10Hostile(t *testing.T) { ReplayOrRapid(t, NewRun(t, "C10"), checkC10Hostile, genC09) }
